@@ -2,9 +2,11 @@
 
 c19_move_table       : the `move` basis of qpd/decompositions.py as (source-qubit sequence, destination-qubit sequence)
                        per map, every operation by its class name
-c19_inner_loop_calls : the calls made, in source order, in the body of the innermost loop
-                       `for j, cog in enumerate(so.groups)` of generate_cutting_experiments; a call guarded by
-                       `if not cog.pauli_indices:` is reported as "if-not-pauli_indices:<name>"
+c19_stage_order      : what the property needs of generate_cutting_experiments' control flow, in execution order: the calls of
+                       _append_measurement_register, decompose_qpd_instructions, _append_measurement_circuit; a reset pass
+                       guarded by `if not cog.pauli_indices:` as "if-not-pauli_indices:<name>"; every unguarded call of one of
+                       the three reset passes as "pass" (wherever the clean-up loop lives, in whatever order)
+c19_pass_names       : the names behind those "pass" tokens, sorted
 c19_dummy_index      : the qubit index measured by _get_pauli_indices when the group measures nothing
 """
 from __future__ import annotations
@@ -76,38 +78,60 @@ def fact_move_table():
     return coq_list(rows)
 
 
-def _calls_in(stmts, prefix=""):
-    out = []
+RESET_PASSES = ("_remove_resets_in_zero_state", "_remove_final_resets", "_consolidate_resets")
+STAGES = ("_append_measurement_register", "decompose_qpd_instructions", "_append_measurement_circuit")
+
+
+def _stage_walk(stmts, guard, out, names):
+    """statements in execution order -> stage tokens.  Only the calls the property cares about are reported:
+    the three stages of the inner loop, the repair call guarded by `if not cog.pauli_indices`, and every unguarded call of
+    one of the three reset passes (anonymised as "pass"; their names are collected separately)."""
     for st in stmts:
-        if isinstance(st, ast.Expr) and isinstance(st.value, ast.Call):
-            c = st.value
-            f = c.func
-            name = f.id if isinstance(f, ast.Name) else (ast.unparse(f))
-            out.append(prefix + name)
-        elif isinstance(st, ast.Assign) and isinstance(st.value, ast.Call):
-            f = st.value.func
-            name = f.id if isinstance(f, ast.Name) else (ast.unparse(f))
-            out.append(prefix + name)
+        if isinstance(st, (ast.For, ast.While)):
+            _stage_walk(st.body, guard, out, names)
+            if st.orelse:
+                _stage_walk(st.orelse, guard, out, names)
         elif isinstance(st, ast.If):
             test = ast.unparse(st.test)
-            if test == "not cog.pauli_indices" and not st.orelse:
-                out.extend(_calls_in(st.body, prefix="if-not-pauli_indices:"))
-            else:
-                raise Shape(f"inner loop: unrecognised conditional `{test}`")
+            _stage_walk(st.body, guard + [test], out, names)
+            _stage_walk(st.orelse, guard + ["not (" + test + ")"], out, names)
+        elif isinstance(st, ast.With):
+            _stage_walk(st.body, guard, out, names)
+        elif isinstance(st, ast.Try):
+            raise Shape("stage order: try statement in generate_cutting_experiments")
         else:
-            raise Shape(f"inner loop: unrecognised statement {type(st).__name__}")
-    return out
+            for node in ast.walk(st):
+                if isinstance(node, ast.Call) and isinstance(node.func, ast.Name):
+                    n = node.func.id
+                    if n in STAGES:
+                        if guard:
+                            raise Shape(f"stage order: {n} is called conditionally ({guard})")
+                        out.append(n)
+                    elif n in RESET_PASSES:
+                        if not guard:
+                            out.append("pass")
+                            names.append(n)
+                        elif guard == ["not cog.pauli_indices"]:
+                            out.append("if-not-pauli_indices:" + n)
+                        else:
+                            raise Shape(f"stage order: {n} is called under an unrecognised condition {guard}")
 
 
-def fact_inner_loop_calls():
+def _stages():
     fn = _fn("cutting_experiments.py", "generate_cutting_experiments")
-    loops = []
-    for node in ast.walk(fn):
-        if isinstance(node, ast.For) and ast.unparse(node.iter) == "enumerate(so.groups)":
-            loops.append(node)
-    if len(loops) != 1:
-        raise Shape(f"expected exactly one loop over enumerate(so.groups), found {len(loops)}")
-    return coq_list([coq_string(n) for n in _calls_in(loops[0].body)])
+    out, names = [], []
+    _stage_walk(fn.body, [], out, names)
+    if not out:
+        raise Shape("stage order: no stage call found")
+    return out, names
+
+
+def fact_stage_order():
+    return coq_list([coq_string(n) for n in _stages()[0]])
+
+
+def fact_pass_names():
+    return coq_list([coq_string(n) for n in sorted(_stages()[1])])
 
 
 def fact_dummy_index():
@@ -126,6 +150,7 @@ def fact_dummy_index():
 
 FACTS = [
     ("c19_move_table", "list (list string * list string)", fact_move_table),
-    ("c19_inner_loop_calls", "list string", fact_inner_loop_calls),
+    ("c19_stage_order", "list string", fact_stage_order),
+    ("c19_pass_names", "list string", fact_pass_names),
     ("c19_dummy_index", "nat", fact_dummy_index),
 ]
